@@ -140,10 +140,12 @@ ip_pipe_create(void **datap, bool dialer)
 		return (rv);
 	}
 	__CPROVER_assert(sizeof(inproc_pipe) == inproc_pipe_size(), "p_size is the size of the transport part");
-	struct ip_pipe_blk *b = calloc(1, sizeof(*b));
+	/* malloc + struct assignment instead of calloc: CBMC keeps the object typed (calloc gives a byte array) */
+	struct ip_pipe_blk *b = malloc(sizeof(*b));
 	if (b == NULL) {
 		return (NNG_ENOMEM);
 	}
+	*b = (struct ip_pipe_blk) { 0 };
 	g_ip.pipes_made++;
 	if (dialer) {
 		g_ip.dpipe = &b->tp; g_ip.dpipe_np = b; g_ip.dref = 2; g_ip.dclosed = false;
